@@ -279,6 +279,9 @@ def analyse(case, io):
             if before is not None:
                 add("C05:events-bracket", "before-without-after", "before-flush event for %s while %s is still open" % (key, before))
             before = key
+            if flushed.get(key, 0) > 0:
+                add("C05:flush-at-most-once", "flushed-batch-selected",
+                    "the scheduler selected batch %s for flushing although it was already flushed" % (key,))
             root = roots[-1] if roots else None
             if root is not None and root in done:
                 add("C05:no-flush-after-done", "flush-after-root-computed",
@@ -471,3 +474,54 @@ def _tv(v):
     if "t" in v:
         return {"VTuple": [[_tv(x) for x in v["t"]]]}
     return {"VList": [[_tv(x) for x in v["l"]]]}
+
+
+def analyse_flush_nesting(case, io):
+    """C05 clauses that need no knowledge of the program, for scenario classes outside the model (a flush body
+    that re-enters the scheduler): each batch runs its _flush at most once; the scheduler never selects a batch
+    whose _flush already ran (in progress or finished); before/after events are properly nested brackets, one pair
+    around each scheduler flush; an item is completed at most once."""
+    if "full" not in io:
+        return []
+    fs = []
+
+    def add(clause, site, msg):
+        if not any(f["clause"] == clause and f["site"] == site for f in fs):
+            fs.append(dict(clause=clause, site=site, msg=msg))
+    flushed, itemdone, open_before = {}, {}, []
+    for e in io["full"]:
+        n = _name(e)
+        a = e[n]
+        if n == "EvBefore":
+            key = (a[0], a[1])
+            if flushed.get(key, 0) > 0:
+                add("C05:flush-at-most-once", "flushed-batch-selected",
+                    "the scheduler selected batch %s for flushing although its flush %s" % (
+                        key, "is in progress" if key in [k for k, _ in open_before] else "already ran"))
+            open_before.append((key, False))
+        elif n == "EvFlush":
+            key = (a[0], a[1])
+            flushed[key] = flushed.get(key, 0) + 1
+            if flushed[key] > 1:
+                add("C05:flush-at-most-once", "batch-flushed-twice", "batch %s was flushed %d times" % (key, flushed[key]))
+            if not a[2]:
+                add("C05:flush-at-most-once", "empty-batch-flushed", "empty batch %s was flushed" % (key,))
+            if open_before and not open_before[-1][1]:
+                if open_before[-1][0] != key:
+                    add("C05:events-bracket", "before-names-other-batch",
+                        "before-flush event named %s, flushed %s" % (open_before[-1][0], key))
+                open_before[-1] = (open_before[-1][0], True)
+        elif n == "EvAfter":
+            key = (a[0], a[1])
+            if not open_before or open_before[-1][0] != key:
+                add("C05:events-bracket", "after-without-before", "after-flush event for %s without a matching before event" % (key,))
+            else:
+                open_before.pop()
+        elif n == "EvItemDone":
+            c = _t(a[0])
+            itemdone[c] = itemdone.get(c, 0) + 1
+            if itemdone[c] > 1:
+                add("C05:item-completion", "item-completed-twice", "item %s was completed twice" % (list(c),))
+    if open_before and "Hang" not in io and not io.get("aborted"):
+        add("C05:events-bracket", "before-without-after", "before-flush event for %s never followed by its after event" % (open_before[-1][0],))
+    return fs
